@@ -141,7 +141,9 @@ for name, opfn, nsnap in OPS:
                 bad.append((name, k, "child ended with", code))
             if st is not None:
                 rows_pre, rows_now = pre[1], st[1]
-                advanced = st[0] != pre[0]
+                advanced = st[0] is not None and st[0] != pre[0]        # a MISSING pointer has not been advanced
+                if pre[0] is not None and not st[0]:
+                    bad.append((name, k, "the version pointer is missing/empty after the crash (a pointer-following reader cannot open the table)"))
                 if name == "collect":
                     if (st[1], st[2]) != (pre[1], pre[2]): bad.append((name, k, "collection changed table content", st[1]))
                 elif not advanced and (st[1], st[2]) != (pre[1], pre[2]) and not (name == "create" and st[1] in (None, [])):
